@@ -353,21 +353,6 @@ fn apply_orientation_for(o: u32) {
 #[kani::proof] fn apply_orientation_o7() { apply_orientation_for(7); }
 #[kani::proof] fn apply_orientation_o8() { apply_orientation_for(8); }
 
-/// The degenerate rectangle: the image of the empty set is the empty set.
-#[kani::proof]
-fn apply_orientation_empty_contract() {
-    let (w, h): (u32, u32) = (kani::any(), kani::any());
-    let o: u32 = kani::any();
-    kani::assume(w >= 1 && h >= 1 && w <= 1 << 30 && h <= 1 << 30);
-    kani::assume(1 <= o && o <= 8);
-    let hdr = header_with(w, h, o);
-    let (dw, dh) = spec_oriented_dims(o, w as i64, h as i64);
-    let a = any_region();
-    kani::assume(a.is_empty() && l(a) >= 0 && t(a) >= 0 && rt(a) <= dw && bt(a) <= dh);
-    let r = a.apply_orientation(&hdr);
-    assert!(r.is_empty(), "[C06,C15] apply_orientation of an empty rectangle is empty");
-}
-
 // ---------------------------------------------------------------------------------------------------
 // monotonicity of the operations the padding rules of util.rs are composed of (nested extents stay nested)
 // ---------------------------------------------------------------------------------------------------
